@@ -37,6 +37,15 @@ from .pathcond import path_info
 FIELD_LISTS = ('fields', 'all_fields', 'all_required_fields', 'all_optional_fields')
 
 
+def _is_within(node, root):
+    x = node
+    while x is not None:
+        if x is root:
+            return True
+        x = getattr(x, '_parent', None)
+    return False
+
+
 def _ln(stmt):
     ln = getattr(stmt, 'lineno', None)
     return ln if ln is not None else stmt.target.lineno
@@ -349,6 +358,20 @@ class IRFlow:
         out = []
         for kind, v, stmt in vals:
             if killer is not None and _ln(stmt) < _ln(killer):
+                continue
+            if isinstance(stmt, ast.comprehension):
+                # a comprehension variable is bound for the whole comprehension (the element
+                # expression is written before the `for` clause) and nowhere else
+                owner = getattr(stmt, '_parent', None)
+                inside = False
+                x = at
+                while x is not None:
+                    if x is owner:
+                        inside = True
+                        break
+                    x = getattr(x, '_parent', None)
+                if inside and not (x is owner and _is_within(at, stmt.iter)):
+                    out.append((kind, v, stmt))
                 continue
             if _ln(stmt) <= at.lineno:
                 # a loop variable does not reach the iterable of its own loop
